@@ -241,7 +241,7 @@ def cases(draw, n_classes=3, n_seeds=2, n_inputs=5):
     items = []
     if classes:
         k = min(len(classes), n_classes)
-        idxs = draw(st.lists(st.integers(0, len(classes) - 1), min_size=k, max_size=k, unique=True))
+        idxs = gencase.pick_classes(draw, an, classes, k)
         vg = valuegen.ValueGen(an, big_lengths=False)
         for i in idxs:
             c = classes[i]
